@@ -224,6 +224,16 @@ class CFG:
         p = self.path(src, dst, avoid=through, avoid_edges=infeasible_edges)
         return (p is None), p
 
+    def cycle_avoiding(self, a, avoid):
+        """is there a path a ->+ a (through a loop back edge) that avoids every node in `avoid`?"""
+        avoid = set(avoid)
+        for m in self.g.successors(a):
+            if m in avoid:
+                continue
+            if m == a or self.path(m, a, avoid=avoid) is not None:
+                return True
+        return False
+
     def all_before(self, a_nodes, b):
         """every path entry -> b passes some node of a_nodes."""
         return self.must_pass(self.entry, b, a_nodes)
